@@ -42,6 +42,16 @@ def run_one(pid, patch):
             if viol:
                 return (pid, patch, "FALSE-ALARM", viol[0][:300])
             return (pid, patch, "OK", "silent")
+        if expect.startswith("known-false-alarm"):
+            # a behaviour-preserving variant on which a rule is known to fail closed (listed in DESIGN §9.9): still an alarm
+            # the checks should not raise; kept so that the day it goes silent — or alarms elsewhere — is noticed
+            want = expect.split(None, 1)[1] if " " in expect else ""
+            if not viol:
+                return (pid, patch, "OK", "silent now (update the header to `expect: silent`)")
+            other = [l for l in viol if want and want not in l]
+            if other and not any(want in l for l in viol):
+                return (pid, patch, "FALSE-ALARM", "not the documented one: " + other[0][:260])
+            return (pid, patch, "KNOWN", viol[0].strip()[:200])
         hit = [l for l in viol if expect in l]
         if hit:
             return (pid, patch, "OK", hit[0].strip()[:200])
@@ -68,7 +78,8 @@ def main():
     bad = 0
     with ThreadPoolExecutor(max_workers=jobs) as ex:
         for pid, patch, st, detail in ex.map(lambda t: run_one(*t), todo):
-            tag = {"OK": "ok", "MISS": "SELFTEST-MISS", "FALSE-ALARM": "SELFTEST-FALSE-ALARM", "SKIP": "skipped"}[st]
+            tag = {"OK": "ok", "MISS": "SELFTEST-MISS", "FALSE-ALARM": "SELFTEST-FALSE-ALARM", "SKIP": "skipped",
+                   "KNOWN": "known-false-alarm"}[st]
             print("%-22s %s %-40s %s" % (tag, pid, os.path.basename(patch), detail))
             if st in ("MISS", "FALSE-ALARM"): bad += 1
     print("selftest: %d variants, %d problem(s)" % (len(todo), bad))
